@@ -64,6 +64,10 @@ pub fn gen_history(rng: &mut Rng) -> (CtxSpec, Vec<String>) {
         // map literals with numerically equal keys of different kinds, indexed every way (a lookup
         // that scans instead of hashing depends on the iteration order of that instance)
         "{1: 'int', 1u: 'uint'}[1.0]", "{1: 'int', 1u: 'uint'}[1]", "{n: 'a', uint(n): 'b'}[uint(n)]", "{1: 'int', 1u: 'uint', 'k': 2}.map(e, e).size()", "1.0 in {1: 'int', 1u: 'uint'}",
+        // the same text converted in different ways, and the same conversion of different texts (a
+        // memo shared between executions must be keyed by everything that determines the answer)
+        "int('42')", "double('42')", "uint('42')", "double('42') / 4.0", "int('42') / 4", "uint('42') + 1u", "string(42) + s", "bytes('42')", "int('7') + n", "double('7') + 0.5",
+        "duration('42s')", "duration('42m')", "string(duration('42s'))", "timestamp('2023-01-01T00:00:00Z')", "string(timestamp('2023-01-01T00:00:00Z'))", "timestamp('2023-01-01T00:00:00Z').getFullYear()", "[int('42'), double('42')]",
         // a name that is a macro variable in one place and the scope's own variable in another
         "k + 1", "[1, 2].map(k, k * 2) + [k]", "xs.map(x, x + k)", "[5].exists(k, k > 2) ? k : 0 - k", "[k, k + 1].filter(k, k > 3) + [k]", "xs.all(k, k >= 0) && k >= 0",
     ];
@@ -72,7 +76,7 @@ pub fn gen_history(rng: &mut Rng) -> (CtxSpec, Vec<String>) {
     let failing = [
         "1 / 0", "xs.map(x, [x, 10 / (x - x)])", "xs + [1 / 0]", "zs[0][99] + 1", "undefined_name + 1", "xs.map(x, nope(x))", "m.no_such_key.deeper", "s + 1",
         "id(1 / 0)", "[1, 2, 3].all(x, 1 / (x - x) > 0)", "[[[[[[1 % 0]]]]]]", "{'a': {'b': {'c': [1, 2][5] + 1}}}", "n + 9223372036854775807", "(xs + ys).map(x, xs.map(y, y / (n - n)))", "int('x')",
-        "true ? [xs.map(x, s + x)] : []", "duration('x')", "[1, 2].map(x, [3, 4].map(y, [5, 6].map(z, x / (y - y))))",
+        "true ? [xs.map(x, s + x)] : []", "duration('x')", "timestamp()", "duration()", "int()", "string()", "[timestamp(), timestamp()]", "xs.map(x, timestamp())", "size()", "double('4x2')", "uint('-42')", "[1, 2].map(x, [3, 4].map(y, [5, 6].map(z, x / (y - y))))",
     ];
     // regular expressions: a few distinct patterns per history (each (pattern, text) pair is
     // answered by the real `regex` crate for the model)
